@@ -257,7 +257,7 @@ void TasmanianSparseGrid::makeFourierGrid(int dimensions, int outputs, int depth
 }
 
 void TasmanianSparseGrid::copyGrid(const TasmanianSparseGrid *source, int outputs_begin, int outputs_end){
-    if (outputs_end == -1) outputs_end = source->getNumOutputs();
+    if ((outputs_end < 0) || (outputs_end > source->getNumOutputs())) outputs_end = source->getNumOutputs(); // outside of the range means "to the end"
     clear();
     if (!source->empty()){
         if (source->isGlobal()){
